@@ -182,6 +182,9 @@ def order_sinks(facts, fid, fn, is_set, extra_params=()):
                 for a in node.args:
                     if is_set(a):
                         res.append((node, '%s(...) over a set' % name))
+            elif last_attr(node) in ('extend', 'writelines', 'extendleft') and node.args \
+                    and is_set(node.args[0]):
+                res.append((node, 'a sequence is extended with the elements of a set'))
             # passing a set to a callee parameter that flows to a sink
             for t in facts._call_targets(fid, node):
                 sinks = facts.param_sinks.get(t, {})
@@ -202,6 +205,9 @@ def order_sinks(facts, fid, fn, is_set, extra_params=()):
         elif isinstance(node, ast.Assign) and isinstance(node.targets[0], (ast.Tuple, ast.List)) \
                 and is_set(node.value):
             res.append((node, 'unpacking a set'))
+        elif isinstance(node, ast.AugAssign) and isinstance(node.op, ast.Add) and is_set(node.value) \
+                and not is_set(node.target):
+            res.append((node, 'a sequence is extended (+=) with the elements of a set'))
         elif isinstance(node, ast.Starred) and is_set(node.value):
             res.append((node, 'star-unpacking a set'))
     return res
@@ -652,11 +658,16 @@ def run(ctx):
            any(last_attr(c) == 'seek' and norm(c.args[0]) == '0' for c in calls_in(off)) and
            any(call_name(c) == 'contextlib.nullcontext' for c in calls_in(off)),
            'a stream is rewound and wrapped without copying; a path is opened for reading', imod, off)
+    from checks.recordloop import RecordLoop, check_raw_record_fields
+    check_raw_record_fields(ctx, 'C03.R4', RecordLoop(prog))
     rl_fn = imod.func('get_atom_lines_from_pdb')
     withs = [n for n in walk_no_nested(rl_fn) if isinstance(n, ast.With)]
     ok = len(withs) == 1 and 'readlines()' in norm(withs[0])
     ctx.ob('C03.R4', 'reader:consumes-lines-only', ok,
            'the record reader takes all lines at once from either source', imod, rl_fn)
+    # options are shared by all inputs of one invocation
+    common.check_options_readonly(ctx, 'C03.R1', prog)
+
     # ------------------------------------------------------------------ R5
     # "whatever the working directory": with no -p given, the parameter file is
     # the packaged one.  Either the option default is anchored on the package
